@@ -64,6 +64,24 @@ Theorem C09_reverse_choice_is_deterministic :
 Proof. exact reverse_choice_deterministic. Qed.
 Print Assumptions C09_reverse_choice_is_deterministic.
 
+(* the versions of a registry entry form a JSON object, which Go decodes into a map
+   and visits in no particular order: any two visiting orders of the same members
+   (no version named twice) give the same source address and deprecation note for
+   every version, or are refused alike *)
+Theorem C09_version_visiting_order_irrelevant :
+  forall vs vs' srcs deprs,
+    Permutation.Permutation vs vs' ->
+    (forall a b ma mb, In a vs -> In b vs -> member_ok a = Some ma -> member_ok b = Some mb ->
+       fst (fst ma) = fst (fst mb) -> ma = mb) ->
+    match load_versions vs srcs deprs, load_versions vs' srcs deprs with
+    | Ok (s1, d1), Ok (s2, d2) =>
+        forall v, alookup version_eqb v s1 = alookup version_eqb v s2 /\ alookup version_eqb v d1 = alookup version_eqb v d2
+    | Ok _, _ | _, Ok _ => False
+    | _, _ => True
+    end.
+Proof. exact load_versions_order_irrelevant. Qed.
+Print Assumptions C09_version_visiting_order_irrelevant.
+
 (* non-vacuity: equally short aliases of one directory; the bytewise smaller one is chosen under either root *)
 Definition tie_manifest : manifest :=
   mkManifest 1
